@@ -8,7 +8,9 @@ From TR Require Import Lib.Base Model.Bulkhead Proof.Bulkhead.
 
 (* In every reachable state the requests inside the inner service (started, not yet
    finished / failed / panicked / dropped) are exactly the Running callers, each counted
-   once, and there are at most cap of them — for all clones (one semaphore). *)
+   once, and there are at most cap of them.  (The model has one semaphore and no notion of a
+   clone or service handle: that all handles of one bulkhead share it is exercised by the
+   driver's handle flags, not modelled.) *)
 Theorem C01_inflight_le_cap :
   forall (c : cfg) (evs : list ev),
     Forall (fun s => (inflight s <= cap c)%nat /\ NoDup (running s) /\
